@@ -146,12 +146,14 @@ Print Assumptions C14_case_sound.
    builds the children with extract_child(child, for_task=True) over context.obj.child_tasks
    after setting obj to manager._nursery; extract_child's stub rule is
    `for_task and not recurse_child_tasks => Stack(root=stackitem, frames=[])`; each of the four
-   trap names is a string constant of its own in the tuple customized hide+prune; the replace/insert decision of the to_thread glue tests
+   trap names is a string constant of its own in the tuple customized hide+prune; ExtractOptions
+   (which carries recurse_child_tasks to extract_child) shares nothing mutable between threads; the replace/insert decision of the to_thread glue tests
    the name "wait_task_rescheduled". *)
 Theorem C14_source_facts :
   SrcFacts.c14_children_for_task = true /\ SrcFacts.c14_stub_rule = true /\ SrcFacts.c14_wait_name = true /\
+  SrcFacts.c14_options_per_thread = true /\
   SrcFacts.c14_trap_cancel_shielded_checkpoint = true /\ SrcFacts.c14_trap_wait_task_rescheduled = true /\
   SrcFacts.c14_trap_temporarily_detach_coroutine_object = true /\
   SrcFacts.c14_trap_permanently_detach_coroutine_object = true.
-Proof. exact (conj eq_refl (conj eq_refl (conj eq_refl (conj eq_refl (conj eq_refl (conj eq_refl eq_refl)))))). Qed.
+Proof. exact (conj eq_refl (conj eq_refl (conj eq_refl (conj eq_refl (conj eq_refl (conj eq_refl (conj eq_refl eq_refl))))))). Qed.
 Print Assumptions C14_source_facts.
